@@ -212,6 +212,25 @@ func (g *G) keeperState() (index, using []space, cfgd bool) {
 			using = append(using, s)
 		}
 	}
+	// the spaces flagged as in use are exactly the spaces of the selection list (what the API lists, what proofs are read
+	// from and what plot / mine / stop / remove act on all go by the flag; what the configuration returned is the list)
+	g.h.Res.OracleEvals++
+	inList := map[string]bool{}
+	for _, sid := range st.List {
+		inList[sid] = true
+	}
+	nUsing := 0
+	for _, sp := range st.Spaces {
+		if sp.InAll && sp.Using {
+			nUsing++
+			if !inList[sp.SID] {
+				g.h.Fail("C15:in-use-but-not-selected", fmt.Sprintf("space %s is flagged as in use although the current selection (%d spaces) does not contain it", sp.SID, len(st.List)))
+			}
+		}
+	}
+	if nUsing != len(st.List) {
+		g.h.Fail("C15:selection-and-use-flags-disagree", fmt.Sprintf("%d spaces are flagged as in use, the selection lists %d", nUsing, len(st.List)))
+	}
 	return index, using, g.sk.Configured()
 }
 
